@@ -51,6 +51,12 @@ impl StreamHandle {
         }))
     }
 
+    /// Construct a handle on top of a scripted device (verification only).
+    #[cfg(cameleon_verif)]
+    pub fn verif_new(device: &u3v::Device) -> ControlResult<Option<Self>> {
+        Self::new(device)
+    }
+
     /// Return params.
     #[must_use]
     pub fn params(&self) -> &StreamParams {
@@ -168,6 +174,8 @@ impl StreamingLoop {
             // Stop the loop when
             // 1. `cancellation_tx` sends signal.
             // 2. `cancellation_tx` is dropped.
+            #[cfg(cameleon_verif)]
+            super::verif::yield_point("loop_top");
             match self.cancellation_rx.try_recv() {
                 Ok(()) | Err(TryRecvError::Disconnected) => break,
                 Err(TryRecvError::Empty) => {}
@@ -189,6 +197,8 @@ impl StreamingLoop {
                 },
             };
 
+            #[cfg(cameleon_verif)]
+            super::verif::yield_point("buffer_obtained");
             let mut async_pool = AsyncPool::new(&inner);
 
             if let Err(err) = read_leader(&mut async_pool, &self.params, &mut leader_buf) {
@@ -223,6 +233,8 @@ impl StreamingLoop {
             let mut payload_len = 0;
 
             while !async_pool.is_empty() {
+                #[cfg(cameleon_verif)]
+                super::verif::yield_point("before_poll");
                 let len = match async_pool.poll(self.params.timeout) {
                     Ok(len) => len,
                     Err(err) => {
@@ -291,6 +303,8 @@ impl StreamingLoop {
                 }
             };
 
+            #[cfg(cameleon_verif)]
+            super::verif::yield_point("before_send_payload");
             if let Err(err) = self.sender.try_send(Ok(payload)) {
                 warn!(?err);
             }
@@ -435,6 +449,28 @@ impl PayloadBuilder<'_> {
             .specific_trailer_as()
             .map_err(|e| StreamError::InvalidPayload(format!("{}", e).into()))
     }
+}
+
+/// Verification hook: parse `leader` and `trailer` exactly as [`StreamingLoop::run`] does and
+/// run the private [`PayloadBuilder`] on them.
+#[cfg(cameleon_verif)]
+pub fn verif_build_payload(
+    leader: &[u8],
+    trailer: &[u8],
+    buf: Vec<u8>,
+    read: usize,
+) -> StreamResult<Payload> {
+    let leader = u3v_stream::Leader::parse(leader)
+        .map_err(|e| StreamError::InvalidPayload(format!("{}", e).into()))?;
+    let trailer = u3v_stream::Trailer::parse(trailer)
+        .map_err(|e| StreamError::InvalidPayload(format!("invalid trailer: {}", e).into()))?;
+    PayloadBuilder {
+        leader,
+        payload_buf: buf,
+        read_payload_size: read,
+        trailer,
+    }
+    .build()
 }
 
 /// Parameters to receive stream packets.
